@@ -46,6 +46,7 @@ Section Inv.
   Local Notation TRY := (try_candidates c_versions c_requirements c_matching marker_true has_pre constraint_ok match_pre ver_lt root).
   Local Notation ATTEMPT := (attempt_to_pin c_versions c_requirements c_matching marker_true has_pre constraint_ok match_pre ver_lt root).
   Local Notation ROUNDS := (rounds c_versions c_requirements c_matching marker_true has_pre constraint_ok match_pre ver_lt root).
+  Local Notation ROUNDSCNT := (rounds_cnt c_versions c_requirements c_matching marker_true has_pre constraint_ok match_pre ver_lt root).
   Local Notation INIT := (init_criteria c_versions c_matching has_pre constraint_ok match_pre ver_lt root).
   Local Notation ROOTDEPS := (root_deps c_requirements marker_true root).
   Local Notation RESOLVE_STATE := (resolve_state_fuel c_versions c_requirements c_matching marker_true has_pre constraint_ok match_pre ver_lt root).
@@ -411,11 +412,11 @@ Section Inv.
     eapply pin_preserves_Inv; eauto.
   Qed.
 
-  Lemma rounds_Inv ur : forall fuel states st,
-    Forall Inv states -> ROUNDS ur fuel states = Ok st -> Inv st /\ unsatisfied st = [].
+  Lemma rounds_cnt_Inv ur : forall fuel states nb st nb',
+    Forall Inv states -> ROUNDSCNT ur fuel states nb = Ok (st, nb') -> Inv st /\ unsatisfied st = [].
   Proof.
-    induction fuel as [|fuel IH]; intros states st F H; [discriminate|].
-    cbn [rounds] in H.
+    induction fuel as [|fuel IH]; intros states nb st nb' F H; [discriminate|].
+    cbn [rounds_cnt] in H.
     destruct states as [|st0 below]; try discriminate.
     inversion F as [|? ? I0 Fb]; subst.
     destruct (unsatisfied st0) as [|n0 ns] eqn:U.
@@ -426,10 +427,18 @@ Section Inv.
       destruct (ATTEMPT st0 name) as [r| | |] eqn:A; cbn [bind] in H; try discriminate.
       pose proof (attempt_preserves_Inv _ _ _ I0 Hk A) as I1.
       destruct (snd r).
-      + apply (IH _ _ (Forall_cons _ I1 (Forall_cons _ I1 Fb)) H).
+      + apply (IH _ _ _ _ (Forall_cons _ I1 (Forall_cons _ I1 Fb)) H).
       + destruct (backtrack (length (st0 :: below)) (st0 :: below)) as [bt| | |] eqn:B; cbn [bind] in H; try discriminate.
         destruct bt as [states'|]; try discriminate.
-        apply (IH _ _ (backtrack_preserves_Inv _ _ _ F B) H).
+        apply (IH _ _ _ _ (backtrack_preserves_Inv _ _ _ F B) H).
+  Qed.
+
+  Lemma rounds_Inv ur fuel states st :
+    Forall Inv states -> ROUNDS ur fuel states = Ok st -> Inv st /\ unsatisfied st = [].
+  Proof.
+    unfold rounds. intros F H.
+    destruct (ROUNDSCNT ur fuel states 0) as [[st' nb']| | |] eqn:R; cbn [bind] in H; try discriminate.
+    inversion H; subst. simpl. eapply rounds_cnt_Inv; eauto.
   Qed.
 
   (* ----- initial criteria ----- *)
